@@ -49,7 +49,7 @@ def iteration_order(data):
         del raw["metadata_version"]          # a successful read removes it from _raw
     fs = frozenset(raw) | M._REQUIRED_ATTRS
     fs -= {"metadata_version"}
-    return list(fs)
+    return sorted(fs, key=str)       # the loop visits them sorted (so that the order of the reported errors is reproducible)
 
 
 def _enriched_type_problem(k, v):
@@ -90,7 +90,7 @@ def observe(make, data_for_mutation_check, reads):
     except M.ExceptionGroup as g:
         if not all(type(e) is M.InvalidMetadata for e in g.exceptions):
             return "raw ExceptionGroup[" + ",".join(sorted({type(e).__name__ for e in g.exceptions})) + "]" + mutated()
-        return "err ExceptionGroup " + (",".join(core.enc(f) for f in sorted(e.field for e in g.exceptions))) + mutated()
+        return "err ExceptionGroup " + (",".join(core.enc(e.field) for e in g.exceptions)) + mutated()    # in the order raised
     except Exception as e:
         return "raw " + type(e).__name__ + mutated()
     rs = []
@@ -316,7 +316,14 @@ class C17(Prop):
             if fresh != list(args):
                 raise RuntimeError("stale extraction for this document")
             text = G.build_doc(doc)
-            return observe(lambda: M.Metadata.from_email(text, validate=val == "1"), text, reads)
+            out = observe(lambda: M.Metadata.from_email(text, validate=val == "1"), text, reads)
+            if out.startswith("err ExceptionGroup ") and M.parse_email(text)[1]:
+                # the group of unparsed keys: their order is the insertion order of a dict, which the model (an
+                # association list used as a map) does not track; compared as a sorted list
+                head = out.split(" ")
+                head[2] = ",".join(sorted(head[2].split(","), key=lambda a: [int(c, 16) for c in a.split(".")] if a != "-" else []))
+                out = " ".join(head)
+            return out
         raise KeyError(op)
 
     def nontrivial(self, op, args, out):
@@ -369,6 +376,14 @@ class C17(Prop):
             data, plan = law_dict(rng)
             data = [[a, b] for a, b in data.items()]
             yield ("from_raw_iff_fields_valid", {"data": data}); k += 1
+            if k % 2 == 0:
+                # the same dict with values from the full pools (content types / paths outside the clear-cut tables too)
+                wild = dict((a, b) for a, b in data)
+                for f in ("description_content_type", "license_files"):
+                    if f in wild or rng.random() < 0.5:
+                        pool = G.POOLS[f]
+                        wild[f] = rng.choice(pool[0] + pool[1] + pool[2] * 3)
+                yield ("outcome_class", {"data": [[a, b] for a, b in wild.items()], "seed": rng.randrange(1 << 30)}); k += 1
             yield ("lazy_same_errors", {"data": data, "seed": rng.randrange(1 << 30)}); k += 1
             if k % 3 == 0:
                 yield ("reads_history_independent", {"data": data, "seed": rng.randrange(1 << 30)}); k += 1
@@ -423,6 +438,34 @@ class C17(Prop):
                     bad_type = _enriched_type_problem(k, getattr(m, k))
                     if bad_type:
                         return False, f"{k}: {bad_type} (raw value {data.get(k)!r})"
+            if not _same(before, data):
+                return False, "caller's dict modified"
+            return True, ""
+        if law == "outcome_class":
+            # whatever the values: validation ends in a Metadata or in one ExceptionGroup of InvalidMetadata, each naming a
+            # field; a lazy read ends in a value or in InvalidMetadata naming that field
+            data = inp["data"]
+            _typed(data, tables=False)
+            before = copy.deepcopy(data)
+            try:
+                M.Metadata.from_raw(data)
+            except M.ExceptionGroup as g:
+                bad = [e for e in g.exceptions if not isinstance(e, M.InvalidMetadata)]
+                if bad:
+                    return False, f"group holds {type(bad[0]).__name__}"
+            except Exception as e:
+                return False, f"raises {type(e).__name__} instead of an ExceptionGroup"
+            m = M.Metadata.from_raw(data, validate=False)
+            fields = list(G.FIELDS)
+            random.Random(inp["seed"]).shuffle(fields)
+            for k in fields:
+                try:
+                    getattr(m, k)
+                except M.InvalidMetadata as e:
+                    if e.field != G.email_name(k):
+                        return False, f"{k}: error names {e.field!r}"
+                except Exception as e:
+                    return False, f"reading {k} raises {type(e).__name__}"
             if not _same(before, data):
                 return False, "caller's dict modified"
             return True, ""
@@ -517,7 +560,7 @@ def _as_dict(d):
     return dict((k, v) for k, v in d) if isinstance(d, list) else d
 
 
-def _typed(data):
+def _typed(data, tables=True):
     """domain of the laws: RawMetadata-typed dicts (str keys; str / list[str] / dict[str,str] / None values)"""
     if not isinstance(data, dict):
         raise TypeError("not a dict")
@@ -535,6 +578,8 @@ def _typed(data):
             raise TypeError(k)
         if typ == "dict" and not (isinstance(v, dict) and all(isinstance(a, str) and isinstance(b, str) for a, b in v.items())):
             raise TypeError(k)
+        if not tables:
+            continue
         if k == "description_content_type" and v not in CT_EXPECT:
             raise ValueError("content type outside the clear-cut table")
         if k == "license_files" and any(p not in LF_EXPECT for p in v):
